@@ -235,7 +235,7 @@ def c09Reasons (c : FileCtx) (gran : Gran) (ch : Nat → Bool) (multi : List Nat
 
 /-- C03 on one granularity's positions. `Guards m s` (the call inserted before line `m` executes
     before the statement at line `sl` of block `bs`): same innermost function, `m ≤ sl`, and the
-    innermost block holding `m` encloses `bs`. Returns the first unguarded line per rule. -/
+    innermost block holding `m` encloses `bs`. Returns one reason per unguarded line and rule. -/
 def c03Reasons (c : FileCtx) (gran : Gran) (ch : Nat → Bool) (multi : List Nat) (singles : List (Nat × Nat)) : List String :=
   let markInfo : List (Nat × Blk × (Nat × Nat)) := multi.filterMap (fun m => (blkOfLine c m).map (fun p => (m, p.1, p.2)))
   let fnFirst (fn : Nat × Nat) : Option Nat := (c.fnFirsts.find? (fun p => p.1 == fn)).map (·.2)
@@ -261,8 +261,8 @@ def c03Reasons (c : FileCtx) (gran : Gran) (ch : Nat → Bool) (multi : List Nat
           | _ => markInfo.any (fun (m, bm, fm) => m ≤ sl && bm.lo ≤ b.lo && b.hi ≤ bm.hi && fm == fn)
         if ok then none else some sl
       else none)
-  (match unguarded with | [] => [] | l :: _ => [s!"C03:unguarded-statement@{l}"]) ++
-  (match singleBad with | [] => [] | l :: _ => [s!"C03:single-line-body@{l}"]) ++
-  (match hdrBad with | [] => [] | l :: _ => [s!"C03:header-branch@{l}"])
+  unguarded.map (fun l => s!"C03:unguarded-statement@{l}") ++
+  singleBad.map (fun l => s!"C03:single-line-body@{l}") ++
+  hdrBad.map (fun l => s!"C03:header-branch@{l}")
 
 end GoatSpec
